@@ -39,7 +39,15 @@ func (o *objectIncludeStrategy) evaluate(m *MethodEvaluator) error {
 	parentFrame, parentNamespace, parentClass :=
 		base.SeparateNameSpaces(nextT.ToString())
 
-	parentFrame = base.CalculateFrame(parentFrame, parentNamespace)
+	// include Mod inside module M means M::Mod when M defines Mod
+	lexicalFrame, isLexical := base.LexicalFrameOf(m.ctx.GetFrame(), parentClass)
+
+	if parentFrame == "" && parentNamespace == "" && isLexical && lexicalFrame != "" {
+		parentFrame = lexicalFrame
+	} else {
+		parentFrame = base.CalculateFrame(parentFrame, parentNamespace)
+	}
+
 	var parentNode base.ClassNode
 
 	if m.method == "extend" {
